@@ -7,7 +7,10 @@ package main
 //
 // Drives the REAL manager.Reconciler (internal/controller/pkg/manager) built with
 // the real NewReconciler, the real PackageRevisioner (pull-policy shortcuts,
-// xpkg.FriendlyID) over a scripted xpkg.Fetcher (the registry), and the real
+// xpkg.FriendlyID) over a scripted xpkg.Fetcher (the fake registry: per reconcile it
+// answers the HEAD for the package's source with a digest, a nil descriptor, or an
+// error VALUE of a given class - opaque, *transport.Error temporary / permanent,
+// other Temporary() error, context deadline / canceled - see c14ErrKinds), and the real
 // xpkg.ImageConfigStore, all on top of simstore. A scenario is an initial store
 // (one package, any revisions) and a history of steps: package edits, registry
 // answers, environment steps (revision status/finalizer changes, finalisation of
@@ -27,6 +30,7 @@ import (
 
 	"github.com/google/go-containerregistry/pkg/name"
 	ggcr "github.com/google/go-containerregistry/pkg/v1"
+	"github.com/google/go-containerregistry/pkg/v1/remote/transport"
 	corev1 "k8s.io/api/core/v1"
 	metav1 "k8s.io/apimachinery/pkg/apis/meta/v1"
 	"k8s.io/apimachinery/pkg/apis/meta/v1/unstructured"
@@ -39,6 +43,7 @@ import (
 	"sigs.k8s.io/controller-runtime/pkg/reconcile"
 
 	xpv1 "github.com/crossplane/crossplane-runtime/apis/common/v1"
+	xperrors "github.com/crossplane/crossplane-runtime/pkg/errors"
 	"github.com/crossplane/crossplane-runtime/pkg/meta"
 
 	pkgv1 "github.com/crossplane/crossplane/apis/pkg/v1"
@@ -92,7 +97,7 @@ type c14Step struct {
 	Spec *c14Spec `json:"spec,omitempty"`
 	// reconcile
 	Faults  []c14Fault `json:"faults,omitempty"`
-	Head    string     `json:"head,omitempty"` // registry answer for the package's source: hex digest | "err" | "nil"
+	Head    string     `json:"head,omitempty"` // registry answer for the package's source: hex digest | "nil" | "err" (opaque error) | "err:<kind>" (c14ErrKinds)
 	ParseOK bool       `json:"parseOk,omitempty"`
 	// addfin / revstatus
 	Name   string `json:"name,omitempty"`
@@ -169,25 +174,138 @@ type c14Mgr struct {
 
 func (m c14Mgr) GetClient() client.Client { return m.c }
 
-// c14Registry is the scripted xpkg.Fetcher.
+// c14Registry is the scripted xpkg.Fetcher (the fake registry).
 type c14Registry struct {
-	answer string // hex digest | "err" | "nil"
-	heads  int
+	answer string   // hex digest | "nil" | "err" | "err:<kind>"
+	heads  int      // Head calls since the counter was reset
+	refs   []string // the references Head was asked about
 }
 
 func (f *c14Registry) Fetch(context.Context, name.Reference, ...string) (ggcr.Image, error) {
 	return nil, errors.New("c14: Fetch not scripted")
 }
 
-func (f *c14Registry) Head(context.Context, name.Reference, ...string) (*ggcr.Descriptor, error) {
+func (f *c14Registry) Head(_ context.Context, ref name.Reference, _ ...string) (*ggcr.Descriptor, error) {
 	f.heads++
-	switch f.answer {
-	case "err", "":
-		return nil, errors.New("c14: registry unavailable")
-	case "nil":
+	f.refs = append(f.refs, ref.String())
+	if d, ok := c14HeadDigest(f.answer); ok {
+		return &ggcr.Descriptor{Digest: ggcr.Hash{Algorithm: "sha256", Hex: d}}, nil
+	}
+	if f.answer == "nil" {
 		return nil, nil
 	}
-	return &ggcr.Descriptor{Digest: ggcr.Hash{Algorithm: "sha256", Hex: f.answer}}, nil
+	return nil, c14HeadErr(f.answer)
+}
+
+// c14HeadDigest: is the scripted answer a digest?
+func c14HeadDigest(a string) (string, bool) {
+	if a == "" || a == "nil" || strings.HasPrefix(a, "err") {
+		return "", false
+	}
+	return a, true
+}
+
+// c14NetErr is a temporary error that is not a registry (*transport.Error) error.
+type c14NetErr struct{}
+
+func (c14NetErr) Error() string   { return "c14: dial tcp: i/o timeout" }
+func (c14NetErr) Timeout() bool   { return true }
+func (c14NetErr) Temporary() bool { return true }
+
+// c14ErrKinds: the kinds of error the fake registry can answer a HEAD with. "err" is an
+// opaque error; the others are the values the real xpkg.K8sFetcher.Head can return: a
+// *transport.Error (HTTP status + registry diagnostics) wrapped the way K8sFetcher wraps the
+// error of its GET fallback ("err:503b": bare), a network error, the context's error.
+var c14ErrKinds = []string{"err", "err:503", "err:503b", "err:504", "err:429", "err:net", "err:401", "err:403", "err:404", "err:deadline", "err:canceled"}
+
+func c14HeadErr(a string) error {
+	te := func(code int, diag ...transport.ErrorCode) error {
+		e := &transport.Error{StatusCode: code}
+		for _, d := range diag {
+			e.Errors = append(e.Errors, transport.Diagnostic{Code: d, Message: "scripted"})
+		}
+		return e
+	}
+	wrap := func(e error) error {
+		return xperrors.Wrapf(e, "failed to fetch package descriptor with a GET request after a previous HEAD request failure: %v", e)
+	}
+	switch a {
+	case "err:503":
+		return wrap(te(503))
+	case "err:503b":
+		return te(503)
+	case "err:504":
+		return wrap(te(504))
+	case "err:429":
+		return wrap(te(429, transport.TooManyRequestsErrorCode))
+	case "err:net":
+		return wrap(c14NetErr{})
+	case "err:401":
+		return wrap(te(401, transport.UnauthorizedErrorCode))
+	case "err:403":
+		return wrap(te(403, transport.DeniedErrorCode))
+	case "err:404":
+		return wrap(te(404, transport.ManifestUnknownErrorCode))
+	case "err:deadline":
+		return wrap(context.DeadlineExceeded)
+	case "err:canceled":
+		return context.Canceled
+	}
+	return errors.New("c14: registry unavailable")
+}
+
+// c14ErrClass classifies an error value the way a caller of Fetcher.Head could: by the
+// error's own methods (tabulated into lean/Xp/Gen/PkgNames.lean, where the model's
+// ErrClass.ofKind must reproduce it).
+func c14ErrClass(err error) string {
+	var te *transport.Error
+	if errors.As(err, &te) {
+		if te.Temporary() {
+			return "temporary"
+		}
+		return "permanent"
+	}
+	if errors.Is(err, context.DeadlineExceeded) || errors.Is(err, context.Canceled) {
+		return "timeout"
+	}
+	var tmp interface{ Temporary() bool }
+	if errors.As(err, &tmp) && tmp.Temporary() {
+		return "temporary"
+	}
+	return "plain"
+}
+
+// c14HeadClass: the class of a scripted registry answer (for cls / generator bookkeeping).
+func c14HeadClass(a string) string {
+	if _, ok := c14HeadDigest(a); ok {
+		return "digest"
+	}
+	if a == "nil" {
+		return "nil"
+	}
+	return c14ErrClass(c14HeadErr(a))
+}
+
+// c14Expect is the property's own statement of what PackageRevisioner.Revision may answer,
+// from the package as stored (name, spec, recorded current revision/identifier) and the
+// registry's answer for the package's CURRENT source. It is independent of the code under
+// test. kind: never | recorded | digest | nodigest | error.
+func c14Expect(pn string, sp c14Spec, pre c14PkgObs, head string, parseOK bool) (string, string) {
+	switch {
+	case sp.Pull == string(corev1.PullNever):
+		return xpkg.FriendlyID(pn, sp.Source), "never"
+	case sp.Pull == string(corev1.PullIfNotPresent) && pre.CurID == sp.Source:
+		return pre.CurRev, "recorded"
+	case !parseOK:
+		return "", "error"
+	}
+	if d, ok := c14HeadDigest(head); ok {
+		return xpkg.FriendlyID(pn, d), "digest"
+	}
+	if head == "nil" {
+		return "", "nodigest"
+	}
+	return "", "error"
 }
 
 func (f *c14Registry) Tags(context.Context, name.Reference, ...string) ([]string, error) {
@@ -410,12 +528,16 @@ func c14Run(s *c14Scn) (c14Obs, []Mon, string) {
 	curSpec := s.Pkg.Spec
 	nameOf := map[string]string{} // (package name, digest) -> revision name seen
 	nRec, nGC, lastRes, lastFault := 0, 0, "none", "none"
+	fetchCls, srcEdited := "none", false // class of the first failed fetch, "@edit" if it hit the first reconcile after a source edit
 	for i := range s.Steps {
 		step := &s.Steps[i]
 		switch step.Op {
 		case "edit":
 			if step.Spec == nil {
 				continue
+			}
+			if step.Spec.Source != curSpec.Source {
+				srcEdited = true
 			}
 			curSpec = *step.Spec
 			st.Mutate(k.pkgGK, "", s.Pkg.Name, func(u *unstructured.Unstructured) {
@@ -446,6 +568,13 @@ func c14Run(s *c14Scn) (c14Obs, []Mon, string) {
 		case "reconcile":
 			nRec++
 			step.ParseOK = c14ParseOK(curSpec.Source)
+			if hc := c14HeadClass(step.Head); hc != "digest" && fetchCls == "none" {
+				fetchCls = hc
+				if srcEdited {
+					fetchCls += "@edit"
+				}
+			}
+			srcEdited = false
 			reg.answer = step.Head
 			plan := map[int]Outcome{}
 			for _, f := range step.Faults {
@@ -464,15 +593,44 @@ func c14Run(s *c14Scn) (c14Obs, []Mon, string) {
 					trace = append(trace, now)
 				}
 			}
-			// what the real revisioner resolves for the package as stored (monitor oracle)
+			// what the real revisioner resolves for the package as stored (oracle of the
+			// reconcile-level monitors below), checked here against the property's own
+			// statement of what it may answer (c14Expect)
+			pre := c14PkgObsOf(st, k, s.Pkg.Name)
+			wantName, wantKind := c14Expect(s.Pkg.Name, curSpec, pre, step.Head, step.ParseOK)
+			wantRef := ""
+			if ref, perr := name.ParseReference(curSpec.Source, name.WithDefaultRegistry(xpkg.DefaultRegistry)); perr == nil {
+				wantRef = ref.String()
+			}
 			curName := ""
 			if pu := st.Peek(k.pkgGK, "", s.Pkg.Name); pu != nil {
 				po := k.newPkg()
 				_ = runtime.DefaultUnstructuredConverter.FromUnstructured(pu.Object, po)
 				monReg.answer = step.Head
-				_ = Guard(func() { curName, _ = monRev.Revision(context.Background(), po) })
+				monReg.refs = nil
+				var monErr error
+				if pan := Guard(func() { curName, monErr = monRev.Revision(context.Background(), po) }); pan != "" {
+					addMon("C14:panic", pan)
+				} else {
+					switch {
+					case wantKind == "error" && monErr == nil:
+						addMon("C14:revisioner-ignored-fetch-error", fmt.Sprintf("reconcile %d: Revision returned (%q, nil) although the fetch for source %q failed (%s, class %s; pull %q, recorded %q for %q)", nRec, curName, curSpec.Source, step.Head, c14HeadClass(step.Head), curSpec.Pull, pre.CurRev, pre.CurID))
+					case wantKind != "error" && monErr != nil:
+						addMon("C14:revisioner-unexpected-error", fmt.Sprintf("reconcile %d: Revision failed (%v) although %s (pull %q, registry answer %s)", nRec, monErr, wantKind, curSpec.Pull, c14HeadClass(step.Head)))
+					case monErr == nil && curName != wantName:
+						addMon("C14:revisioner-name-not-from-digest", fmt.Sprintf("reconcile %d: Revision returned %q, the property allows only %q (%s; pull %q, source %q, recorded %q for %q)", nRec, curName, wantName, wantKind, curSpec.Pull, curSpec.Source, pre.CurRev, pre.CurID))
+					}
+					for _, asked := range monReg.refs {
+						if asked != wantRef {
+							addMon("C14:fetched-other-source", fmt.Sprintf("reconcile %d: the registry was asked about %q, the package's source is %q", nRec, asked, wantRef))
+						}
+					}
+					if (wantKind == "never" || wantKind == "recorded") && len(monReg.refs) > 0 {
+						addMon("C14:fetched-despite-pull-policy", fmt.Sprintf("reconcile %d: the registry was asked although the pull policy %q lets Revision answer from the package", nRec, curSpec.Pull))
+					}
+				}
 			}
-			pre := c14PkgObsOf(st, k, s.Pkg.Name)
+			reg.refs = nil
 			var res reconcile.Result
 			var err error
 			if pan := Guard(func() {
@@ -577,6 +735,74 @@ func c14Run(s *c14Scn) (c14Obs, []Mon, string) {
 					addMon("C14:created-non-current", fmt.Sprintf("created %s while the current revision name is %q", c.Name, curName))
 				}
 			}
+			// (3b) the revisioner clauses, evaluated on what the reconcile did. consulted =
+			// the reconcile got as far as asking the revisioner (package read, not paused).
+			revWrites := []CallInfo{}
+			for _, c := range log {
+				if c.IsWrite() && c.Applied && c.GK == k.revGK.String() {
+					revWrites = append(revWrites, c)
+				}
+			}
+			for _, asked := range reg.refs {
+				if asked != wantRef {
+					addMon("C14:fetched-other-source", fmt.Sprintf("reconcile %d: the registry was asked about %q, the package's source is %q", nRec, asked, wantRef))
+				}
+			}
+			statusMoved := pre.Exists && ro.Pkg.Exists && (ro.Pkg.CurRev != pre.CurRev || ro.Pkg.CurID != pre.CurID)
+			if wantKind == "error" || wantKind == "nodigest" {
+				// no name may be resolved: nothing may be written to any revision, the recorded
+				// current revision / identifier must stay
+				sig := "C14:write-after-fetch-error"
+				if wantKind == "nodigest" {
+					sig = "C14:write-without-digest"
+				}
+				if len(revWrites) > 0 {
+					addMon(sig, fmt.Sprintf("reconcile %d: %s %s although the registry gave no digest for source %q (answer %s, class %s)", nRec, revWrites[0].Verb, revWrites[0].Name, curSpec.Source, step.Head, c14HeadClass(step.Head)))
+				} else if len(trace) > 1 {
+					addMon(sig, fmt.Sprintf("reconcile %d: revisions changed although the registry gave no digest for source %q (class %s)", nRec, curSpec.Source, c14HeadClass(step.Head)))
+				}
+				if statusMoved {
+					addMon(sig, fmt.Sprintf("reconcile %d: status moved from (%q for %q) to (%q for %q) although the registry gave no digest for source %q (class %s)", nRec, pre.CurRev, pre.CurID, ro.Pkg.CurRev, ro.Pkg.CurID, curSpec.Source, c14HeadClass(step.Head)))
+				}
+				if wantKind == "error" && pre.Exists && !curSpec.Paused && !pre.PausedCond && ro.Res != "err" && ro.Res != "crashed" {
+					addMon("C14:fetch-error-not-reported", fmt.Sprintf("reconcile %d returned %s although the fetch for source %q failed (class %s)", nRec, ro.Res, curSpec.Source, c14HeadClass(step.Head)))
+				}
+			}
+			// the recorded current revision is the one resolved for the recorded identifier
+			if statusMoved && !(ro.Pkg.CurID == curSpec.Source && (wantKind == "never" || wantKind == "recorded" || wantKind == "digest") && ro.Pkg.CurRev == wantName) {
+				addMon("C14:current-revision-for-other-source", fmt.Sprintf("reconcile %d recorded current revision %q for identifier %q; source %q resolves to %q (%s)", nRec, ro.Pkg.CurRev, ro.Pkg.CurID, curSpec.Source, wantName, wantKind))
+			}
+			// a revision whose image this reconcile wrote (created, or spec.image changed) is
+			// named after the digest the registry serves for that image now
+			beforeImg := map[string]string{}
+			for _, r := range before {
+				beforeImg[r.Name] = r.Image
+			}
+			for _, snap := range trace[1:] {
+				for _, r := range snap {
+					if old, existed := beforeImg[r.Name]; r.Parent != pn || (existed && old == r.Image) {
+						continue
+					}
+					bad := ""
+					switch wantKind {
+					case "never":
+						if r.Name != xpkg.FriendlyID(pn, r.Image) {
+							bad = "pull policy Never names revisions after the source string"
+						}
+					case "recorded":
+						// the recorded revision of the same identifier is trusted: nothing to compare with
+					case "digest":
+						if r.Image != curSpec.Source || r.Name != wantName {
+							bad = fmt.Sprintf("the registry serves digest %.12s for source %q, i.e. revision %q", step.Head, curSpec.Source, wantName)
+						}
+					default:
+						bad = fmt.Sprintf("the registry served no digest for %q in this reconcile (class %s)", r.Image, c14HeadClass(step.Head))
+					}
+					if bad != "" {
+						addMon("C14:revision-name-not-digest-of-its-image", fmt.Sprintf("reconcile %d: revision %s got image %q: %s", nRec, r.Name, r.Image, bad))
+					}
+				}
+			}
 			// (4) history GC
 			listed := []c14Rev{}
 			for _, r := range before {
@@ -626,7 +852,7 @@ func c14Run(s *c14Scn) (c14Obs, []Mon, string) {
 	if nGC > 0 {
 		gc = "1+"
 	}
-	cls := fmt.Sprintf("rec=%d/pull=%s/policy=%s/gc=%s/fault=%s/res=%s", nRec, curSpec.Pull, curSpec.Policy, gc, lastFault, lastRes)
+	cls := fmt.Sprintf("rec=%d/pull=%s/policy=%s/gc=%s/fetch=%s/fault=%s/res=%s", nRec, curSpec.Pull, curSpec.Policy, gc, fetchCls, lastFault, lastRes)
 	if nRec == 0 {
 		cls = "trivial/no-reconcile"
 	}
@@ -829,9 +1055,9 @@ func c14Gen(r *Rng, tier string) c14Scn {
 		default:
 			head := tagDigest[cur.Source]
 			switch r.Intn(16) {
-			case 0:
-				head = "err"
-			case 1:
+			case 0, 1:
+				head = Pick(r, c14ErrKinds)
+			case 2:
 				head = "nil"
 			}
 			s.Steps = append(s.Steps, c14Step{Op: "reconcile", Head: head, Faults: c14GenFaults(r, tier)})
@@ -884,6 +1110,121 @@ func c14GenRollback(r *Rng) c14Scn {
 	return s
 }
 
+// c14GenFetchErr produces the shape "the registry fails while the package is being moved":
+// a package installed at source v1 (revision named after v1's digest, recorded as current for
+// identifier v1, possibly with older history), a source edit v1 -> v2 (sometimes none,
+// sometimes with a pull-policy change in the same edit), a fetch error of EVERY class on the
+// first reconcile after the edit (optionally under API faults, optionally a second error of
+// another class), then the registry recovers; sometimes a rollback to v1 with another error.
+// All pull policies.
+func c14GenFetchErr(r *Rng) c14Scn {
+	pn := Pick(r, c14Names[:3])
+	uid := "u-" + pn[:1]
+	valid := []string{c14Sources[0], c14Sources[1], c14Sources[2], c14Sources[3], c14Sources[4], c14Sources[6]}
+	sp := r.Perm(len(valid))
+	v1, v2 := valid[sp[0]], valid[sp[1]]
+	dp := r.Perm(5)
+	d1, d2 := c14Digests[dp[0]], c14Digests[dp[1]]
+	if v2 == c14Sources[4] { // a digest reference resolves to its own digest
+		d2 = c14Digests[2]
+		if d1 == d2 {
+			d1 = c14Digests[dp[2]]
+		}
+	}
+	if v1 == c14Sources[4] {
+		d1 = c14Digests[2]
+		if d2 == d1 {
+			d2 = c14Digests[dp[2]]
+		}
+	}
+	pull := Pick(r, []string{"", "Always", "IfNotPresent", "IfNotPresent", "IfNotPresent", "Never"})
+	policy := Pick(r, []string{"", "", "Automatic", "Manual"})
+	s := c14Scn{Kind: Pick(r, []string{"Provider", "Configuration", "Function"}), Revs: []c14Rev{}, Steps: []c14Step{}}
+	nameFor := func(src, dig, pl string) string {
+		if pl == "Never" {
+			return xpkgFriendly(pn, src)
+		}
+		return xpkgFriendly(pn, dig)
+	}
+	// older history
+	nOld := r.Intn(3)
+	for i := 0; i < nOld; i++ {
+		s.Revs = append(s.Revs, c14Rev{Name: xpkgFriendly(pn, c14Digests[dp[2+i]]), Parent: pn, Number: int64(i + 1), State: "Inactive", Ctrl: uid, Image: valid[sp[2+i]], Labels: []c14KV{}, Fin: r.Bool()})
+	}
+	curState := "Active"
+	if policy == "Manual" && r.Bool() {
+		curState = "Inactive"
+	}
+	r1 := c14Rev{Name: nameFor(v1, d1, pull), Parent: pn, Number: int64(nOld + 1), State: curState, Ctrl: uid, Image: v1, Labels: []c14KV{}, Fin: r.Bool()}
+	dup := false
+	for _, e := range s.Revs {
+		if e.Name == r1.Name {
+			dup = true
+		}
+	}
+	if !dup {
+		s.Revs = append(s.Revs, r1)
+	}
+	s.Pkg = c14Pkg{Name: pn, UID: uid, Spec: c14Spec{Source: v1, Limit: Pick(r, []*int64{nil, ptr.To(int64(0)), ptr.To(int64(1)), ptr.To(int64(2)), ptr.To(int64(3))}), Policy: policy, Pull: pull, Labels: []c14KV{}},
+		CurRev: r1.Name, CurID: v1}
+	switch r.Intn(10) {
+	case 0: // never reconciled: no recorded revision
+		s.Pkg.CurRev, s.Pkg.CurID = "", ""
+	case 1: // recorded revision, identifier lost
+		s.Pkg.CurID = ""
+	case 2: // identifier already the new source (e.g. a crash between the writes of an earlier run)
+		s.Pkg.CurID = v2
+	}
+	faults := func(p int) []c14Fault {
+		if r.Chance(1, p) {
+			return c14GenFaults(r, "quick")
+		}
+		return nil
+	}
+	if r.Bool() {
+		s.Steps = append(s.Steps, c14Step{Op: "reconcile", Head: d1})
+	}
+	cur := s.Pkg.Spec
+	move := func(to string) {
+		ns := cur
+		ns.Source = to
+		if r.Chance(1, 5) {
+			ns.Pull = Pick(r, []string{"", "Always", "IfNotPresent", "Never"})
+		}
+		cur = ns
+		s.Steps = append(s.Steps, c14Step{Op: "edit", Spec: &ns})
+	}
+	target, dig := v2, d2
+	if r.Chance(5, 6) {
+		move(v2)
+	} else {
+		target, dig = v1, d1 // the registry fails while the source is unchanged
+	}
+	_ = target
+	s.Steps = append(s.Steps, c14Step{Op: "reconcile", Head: Pick(r, c14ErrKinds), Faults: faults(3)})
+	if r.Chance(1, 3) {
+		s.Steps = append(s.Steps, c14Step{Op: "reconcile", Head: Pick(r, append([]string{"nil"}, c14ErrKinds...)), Faults: faults(4)})
+	}
+	for i, n := 0, r.Range(1, 3); i < n; i++ {
+		var f []c14Fault
+		if i == 0 {
+			f = faults(3)
+		}
+		s.Steps = append(s.Steps, c14Step{Op: "reconcile", Head: dig, Faults: f})
+	}
+	if r.Chance(1, 3) {
+		back, bd := v1, d1
+		if cur.Source == v1 {
+			back, bd = v2, d2
+		}
+		move(back)
+		s.Steps = append(s.Steps, c14Step{Op: "reconcile", Head: Pick(r, c14ErrKinds), Faults: faults(4)})
+		s.Steps = append(s.Steps, c14Step{Op: "reconcile", Head: bd})
+		s.Steps = append(s.Steps, c14Step{Op: "reconcile", Head: bd})
+	}
+	return s
+}
+
 func c14GenName(r *Rng) c14Scn {
 	s := c14Scn{Kind: "name", Revs: []c14Rev{}, Steps: []c14Step{}}
 	alpha := "abcxyz019-./:_ABZ@~ "
@@ -927,17 +1268,33 @@ func c14Exhaust(base c14Scn, emit func(c14Scn)) {
 			last = i
 		}
 	}
-	if last < 0 {
+	c14ExhaustAt(base, last, emit)
+}
+
+// c14FirstFailedFetch: index of the first reconcile step whose registry answer is not a digest.
+func c14FirstFailedFetch(s c14Scn) int {
+	for i, st := range s.Steps {
+		if _, ok := c14HeadDigest(st.Head); st.Op == "reconcile" && !ok {
+			return i
+		}
+	}
+	return -1
+}
+
+// c14ExhaustAt: every fault position x outcome for reconcile step `at`; a clean reconcile with
+// the same registry answer is appended.
+func c14ExhaustAt(base c14Scn, at int, emit func(c14Scn)) {
+	if at < 0 {
 		return
 	}
 	for k := 0; k < 14; k++ {
 		for _, o := range []string{"fail", "conflict", "crashBefore", "crashAfter"} {
 			c := base
 			c.Steps = append([]c14Step{}, base.Steps...)
-			st := c.Steps[last]
+			st := c.Steps[at]
 			st.Faults = []c14Fault{{K: k, O: o}}
-			c.Steps[last] = st
-			c.Steps = append(c.Steps, c14Step{Op: "reconcile", Head: st.Head})
+			c.Steps[at] = st
+			c.Steps = append(c.Steps, c14Step{Op: "reconcile", Head: c.Steps[len(c.Steps)-1].Head})
 			emit(c)
 		}
 	}
@@ -1016,6 +1373,15 @@ func init() {
 			sb.WriteString("  (" + leanStr(p[0]) + ", " + leanStr(p[1]) + ", " + leanStr(xpkg.FriendlyID(p[0], p[1])) + ")" + sep + "\n")
 		}
 		sb.WriteString("]\n")
+		sb.WriteString("/-- the kinds of error the fake registry answers a HEAD with, and the class of each as the error value itself reports it (errors.As *transport.Error + Temporary(), context errors, Temporary() of other errors) -/\n")
+		sb.WriteString("def fetchErrKinds : List (String × String) := [")
+		for i, kd := range c14ErrKinds {
+			if i > 0 {
+				sb.WriteString(", ")
+			}
+			sb.WriteString("(" + leanStr(kd) + ", " + leanStr(c14ErrClass(c14HeadErr(kd))) + ")")
+		}
+		sb.WriteString("]\n")
 		sb.WriteString("/-- pkgv1.LabelParentPackage, PackageRevisionActive, PackageRevisionInactive, AutomaticActivation, ManualActivation -/\n")
 		sb.WriteString("def pkgConstants : List String := " + leanStrList([]string{pkgv1.LabelParentPackage, string(pkgv1.PackageRevisionActive), string(pkgv1.PackageRevisionInactive), string(pkgv1.AutomaticActivation), string(pkgv1.ManualActivation)}) + "\n")
 		return sb.String()
@@ -1042,10 +1408,20 @@ func init() {
 			case x < 9:
 				run(c14GenRollback(c.Rng), "rollback")
 				i++
+			case x >= 10 && x < 16:
+				run(c14GenFetchErr(c.Rng), "fetcherr")
+				i++
 			case x == 9 && c.N-i > 60 && c.Rng.Chance(1, 3):
 				base := c14Gen(c.Rng, c.Tier)
-				if c.Rng.Bool() {
+				switch c.Rng.Intn(3) {
+				case 0:
 					base = c14GenRollback(c.Rng)
+				case 1:
+					base = c14GenFetchErr(c.Rng)
+					if at := c14FirstFailedFetch(base); at >= 0 && c.Rng.Bool() {
+						c14ExhaustAt(base, at, func(s c14Scn) { run(s, "exhaust-fetcherr"); i++ })
+						continue
+					}
 				}
 				c14Exhaust(base, func(s c14Scn) { run(s, "exhaust"); i++ })
 			default:
